@@ -38,8 +38,9 @@ import (
 // ------------------------------------------------------------------ input
 
 type c37Beh struct {
-	SP bool `json:"sp,omitempty"` // OnDispatchStart panics
-	EP bool `json:"ep,omitempty"` // OnDispatchEnd panics
+	SP  bool   `json:"sp,omitempty"`  // OnDispatchStart panics
+	EP  bool   `json:"ep,omitempty"`  // OnDispatchEnd panics
+	Ret string `json:"ret,omitempty"` // what a returning start hands back: "" (ctx, token) | nilctx (nil, token) | niltok (ctx, nil) | nilnil (nil, nil) | derived (ctx carrying a value, token)
 }
 
 type c37Call struct {
@@ -68,10 +69,14 @@ type c37In struct {
 
 // ------------------------------------------------------------------ observables
 
+// token / context VALUES: 0 = nil token / the caller's context, n+1 = the token
+// issued / the context derived by start n; 9999 = something else
 type c37Ev struct {
 	End bool `json:"end,omitempty"`
-	ID  int  `json:"id"`
+	ID  int  `json:"id"`            // start: start index
 	Ret bool `json:"ret,omitempty"` // start: returned normally
+	TV  int  `json:"tv"`            // start: token value returned; end: token value received
+	CV  int  `json:"cv,omitempty"`  // start: context value returned
 	Err bool `json:"err,omitempty"` // end: err != nil
 }
 
@@ -95,6 +100,7 @@ type c37Rq struct {
 	Phase int      `json:"phase"`
 	Begin *c37Ev   `json:"begin,omitempty"` // phase 2: the start event this call produced in its phase 1
 	Evs   []c37Ev  `json:"evs"`
+	Seen  *int     `json:"seen,omitempty"` // context value all user code of this request ran under (nil: no user code ran; 9998: they differ; 9997: nil context)
 	Resp  *c37Resp `json:"resp,omitempty"`
 }
 
@@ -119,22 +125,53 @@ func (h *c37Hook) OnDispatchStart(ctx context.Context, info vgirpc.DispatchInfo)
 	id := h.next
 	h.next++
 	b := h.beh(id)
-	h.log = append(h.log, c37Ev{ID: id, Ret: !b.SP})
+	ev := c37Ev{ID: id, Ret: !b.SP}
+	var rctx context.Context = ctx
+	var rtok vgirpc.HookToken = id
+	if !b.SP {
+		ev.TV = id + 1
+		switch b.Ret {
+		case "nilctx":
+			rctx = nil
+		case "niltok":
+			rtok, ev.TV = nil, 0
+		case "nilnil":
+			rctx, rtok, ev.TV = nil, nil, 0
+		case "derived":
+			rctx, ev.CV = context.WithValue(ctx, c37CtxKey{}, id+1), id+1
+		}
+	}
+	h.log = append(h.log, ev)
 	h.mu.Unlock()
 	if b.SP {
 		panic("scripted hook start panic")
 	}
-	return ctx, id
+	return rctx, rtok
+}
+
+type c37CtxKey struct{}
+
+// c37CtxVal reads the value a derived context carries (0: none).
+func c37CtxVal(ctx context.Context) int {
+	if ctx == nil {
+		return 9997
+	}
+	if v, ok := ctx.Value(c37CtxKey{}).(int); ok {
+		return v
+	}
+	return 0
 }
 
 func (h *c37Hook) OnDispatchEnd(ctx context.Context, token vgirpc.HookToken, info vgirpc.DispatchInfo, stats *vgirpc.CallStatistics, err error) {
-	id, ok := token.(int)
-	if !ok {
-		id = 9999
+	id, tv := -1, 9999
+	if token == nil {
+		tv = 0
+	} else if n, ok := token.(int); ok {
+		id, tv = n, n+1
 	}
 	h.mu.Lock()
-	b := h.beh(id)
-	h.log = append(h.log, c37Ev{End: true, ID: id, Err: err != nil})
+	b := h.beh(id) // a nil token cannot be traced to its start: such an end never panics
+	h.log = append(h.log, c37Ev{End: true, ID: id, TV: tv, Err: err != nil})
 	h.mu.Unlock()
 	if b.EP {
 		panic("scripted hook end panic")
@@ -157,6 +194,36 @@ type c37Hist struct {
 	entered []chan struct{}
 	release []chan struct{}
 	onceEnt []sync.Once
+	seenMu  sync.Mutex
+	seen    [][]int // per call: context values user code saw during the current request
+}
+
+// saw records the context value a piece of user code of call k runs under.
+func (r *c37Hist) saw(k int, ctx context.Context) {
+	if k < 0 || k >= len(r.calls) {
+		return
+	}
+	r.seenMu.Lock()
+	r.seen[k] = append(r.seen[k], c37CtxVal(ctx))
+	r.seenMu.Unlock()
+}
+
+// takeSeen summarises and clears what call k's user code saw in the request that just ended.
+func (r *c37Hist) takeSeen(k int) *int {
+	r.seenMu.Lock()
+	defer r.seenMu.Unlock()
+	vs := r.seen[k]
+	r.seen[k] = nil
+	if len(vs) == 0 {
+		return nil
+	}
+	v := vs[0]
+	for _, x := range vs {
+		if x != v {
+			v = 9998
+		}
+	}
+	return &v
 }
 
 var (
@@ -200,10 +267,13 @@ func c37Raise(kind string) error {
 	return nil
 }
 
-func (st *C37State) turn(prod bool, out *vgirpc.OutputCollector) error {
+func (st *C37State) turn(ctx context.Context, prod bool, out *vgirpc.OutputCollector) error {
 	c37Mu.Lock()
 	r := c37Runs[st.RID]
 	c37Mu.Unlock()
+	if r != nil {
+		r.saw(st.K, ctx)
+	}
 	act := "emit"
 	if prod {
 		act = "finish"
@@ -237,10 +307,10 @@ func (st *C37State) turn(prod bool, out *vgirpc.OutputCollector) error {
 }
 
 func (st *C37State) Produce(ctx context.Context, out *vgirpc.OutputCollector, cc *vgirpc.CallContext) error {
-	return st.turn(true, out)
+	return st.turn(ctx, true, out)
 }
 func (st *C37State) Exchange(ctx context.Context, in arrow.RecordBatch, out *vgirpc.OutputCollector, cc *vgirpc.CallContext) error {
-	return st.turn(false, out)
+	return st.turn(ctx, false, out)
 }
 
 const c37ServerPV = "1.2.0"
@@ -250,8 +320,9 @@ func newC37Server(r *c37Hist, hook vgirpc.DispatchHook) *vgirpc.Server {
 	s.SetServiceName("C37Svc")
 	s.SetProtocolVersion(c37ServerPV)
 	s.SetDispatchHook(hook)
-	vgirpc.Unary(s, "unary", func(_ context.Context, cc *vgirpc.CallContext, p PInt) (int64, error) {
+	vgirpc.Unary(s, "unary", func(ctx context.Context, cc *vgirpc.CallContext, p PInt) (int64, error) {
 		k := int(p.X)
+		r.saw(k, ctx)
 		r.gate(k)
 		if k >= 0 && k < len(r.calls) {
 			if r.calls[k].Init == "big" {
@@ -264,8 +335,9 @@ func newC37Server(r *c37Hist, hook vgirpc.DispatchHook) *vgirpc.Server {
 		return p.X, nil
 	})
 	initH := func(exch bool) func(context.Context, *vgirpc.CallContext, PInt) (*vgirpc.StreamResult, error) {
-		return func(_ context.Context, cc *vgirpc.CallContext, p PInt) (*vgirpc.StreamResult, error) {
+		return func(ctx context.Context, cc *vgirpc.CallContext, p PInt) (*vgirpc.StreamResult, error) {
 			k := int(p.X)
+			r.saw(k, ctx)
 			r.gate(k)
 			init, nogob := "ok", false
 			if k >= 0 && k < len(r.calls) {
@@ -479,7 +551,7 @@ func c37RunOnce(in c37In, script []c37Beh, tags map[string]bool) [][]c37Rq {
 	n := len(in.Calls)
 	c37Mu.Lock()
 	c37Seq++
-	r := &c37Hist{id: c37Seq, calls: in.Calls, entered: make([]chan struct{}, n), release: make([]chan struct{}, n), onceEnt: make([]sync.Once, n)}
+	r := &c37Hist{id: c37Seq, calls: in.Calls, entered: make([]chan struct{}, n), release: make([]chan struct{}, n), onceEnt: make([]sync.Once, n), seen: make([][]int, n)}
 	c37Runs[r.id] = r
 	c37Mu.Unlock()
 	defer func() { c37Mu.Lock(); delete(c37Runs, r.id); c37Mu.Unlock() }()
@@ -509,6 +581,7 @@ func c37RunOnce(in c37In, script []c37Beh, tags map[string]bool) [][]c37Rq {
 	proceed := make([]chan struct{}, n)   // main has drained the hook log after the first request
 	allDone := make([]chan struct{}, n)
 	firstResp := make([]*c37Resp, n)
+	firstSeen := make([]*int, n)
 	subRqs := make([][]c37Rq, n)
 	beginEv := make([]*c37Ev, n)
 	obs := [][]c37Rq{}
@@ -524,7 +597,7 @@ func c37RunOnce(in c37In, script []c37Beh, tags map[string]bool) [][]c37Rq {
 	}
 	finishFrom := func(k, phase int) []c37Rq {
 		evs := hook.drain()
-		rq := c37Rq{K: k, Item: -1, Phase: phase, Evs: evs, Resp: firstResp[k]}
+		rq := c37Rq{K: k, Item: -1, Phase: phase, Evs: evs, Seen: firstSeen[k], Resp: firstResp[k]}
 		if phase == 2 {
 			rq.Begin = beginEv[k]
 		}
@@ -545,10 +618,10 @@ func c37RunOnce(in c37In, script []c37Beh, tags map[string]bool) [][]c37Rq {
 				defer close(allDone[k])
 				var once sync.Once
 				first := func(rp *c37Resp) {
-					once.Do(func() { firstResp[k] = rp; close(firstDone[k]); <-proceed[k] })
+					once.Do(func() { firstResp[k], firstSeen[k] = rp, r.takeSeen(k); close(firstDone[k]); <-proceed[k] })
 				}
 				r.runCall(k, pipeSrv, httpSrv, first, func(item int, rp *c37Resp) {
-					subRqs[k] = append(subRqs[k], c37Rq{K: k, Item: item, Evs: hook.drain(), Resp: rp})
+					subRqs[k] = append(subRqs[k], c37Rq{K: k, Item: item, Evs: hook.drain(), Seen: r.takeSeen(k), Resp: rp})
 				})
 				first(nil)
 			}()
@@ -591,6 +664,9 @@ func c37RunOnce(in c37In, script []c37Beh, tags map[string]bool) [][]c37Rq {
 	return obs
 }
 
+var c37Shape = map[string]string{"": "C37.RCtxTok", "nilctx": "C37.RNilCtx", "niltok": "C37.RNilTok", "nilnil": "C37.RNilNil", "derived": "C37.RDerived"}
+var c37Shapes = []string{"", "nilctx", "niltok", "nilnil", "derived"}
+
 func c37RespErr(r *c37Resp) bool {
 	if r.Status >= 400 || r.XErr {
 		return true
@@ -627,6 +703,16 @@ func c37Run(in c37In) CaseOut {
 					tags["start-panic"] = true
 				}
 			}
+			if q.Seen != nil {
+				switch {
+				case *q.Seen >= 9000:
+					tags["seen-anomaly"] = true
+				case *q.Seen > 0:
+					tags["user-code-saw-derived-ctx"] = true
+				default:
+					tags["user-code-saw-own-ctx"] = true
+				}
+			}
 			if q.Resp != nil {
 				if len(q.Evs) == 0 && q.Phase == 0 {
 					tags["no-dispatch"] = true
@@ -646,6 +732,9 @@ func c37Run(in c37In) CaseOut {
 		}
 	}
 	for _, b := range in.Hooks {
+		if b.Ret != "" && !b.SP {
+			tags["script-ret-"+b.Ret] = true
+		}
 		if b.EP {
 			tags["script-end-panic"] = true
 		}
@@ -707,11 +796,17 @@ func c37Run(in c37In) CaseOut {
 		return App("Some", App("C37.Build_resp", N(uint64(r.Status)), Bool(r.XErr), Bool(r.Panic),
 			ListOf(r.Streams, func(s []c37Fr) string { return ListOf(s, coqFr) })))
 	}
+	coqOut := func(e c37Ev) string {
+		if !e.Ret {
+			return "None"
+		}
+		return App("Some", Pair(Nat(e.TV), Nat(e.CV)))
+	}
 	coqEv := func(e c37Ev) string {
 		if e.End {
-			return App("C37.HEnd", Nat(e.ID), Bool(e.Err))
+			return App("C37.HEnd", Nat(e.TV), Bool(e.Err))
 		}
-		return App("C37.HStart", Nat(e.ID), Bool(e.Ret))
+		return App("C37.HStart", Nat(e.ID), coqOut(e))
 	}
 	coqRq := func(q c37Rq) string {
 		item := "None"
@@ -721,9 +816,13 @@ func c37Run(in c37In) CaseOut {
 		ph := []string{"C37.PWhole", "C37.PBegin", "C37.PEnd"}[q.Phase]
 		beg := "None"
 		if q.Begin != nil {
-			beg = App("Some", Pair(Nat(q.Begin.ID), Bool(q.Begin.Ret)))
+			beg = App("Some", Pair(Nat(q.Begin.ID), coqOut(*q.Begin)))
 		}
-		return App("C37.Build_rq", Nat(q.K), item, ph, beg, ListOf(q.Evs, coqEv), coqResp(q.Resp))
+		seen := "None"
+		if q.Seen != nil {
+			seen = App("Some", Nat(*q.Seen))
+		}
+		return App("C37.Build_rq", Nat(q.K), item, ph, beg, ListOf(q.Evs, coqEv), seen, coqResp(q.Resp))
 	}
 	coqCall := func(c c37Call) string {
 		kind := map[string]string{"unary": "C37.KUnary", "prod": "C37.KProd", "exch": "C37.KExch", "unknown": "C37.KUnknown"}[c.Kind]
@@ -737,7 +836,7 @@ func c37Run(in c37In) CaseOut {
 			ListOf(c.Turns, func(s string) string { return turn[s] }), ListOf(c.Inputs, func(s string) string { return item[s] }))
 	}
 	coqIn := App("C37.Build_input",
-		ListOf(in.Hooks, func(b c37Beh) string { return App("C37.Build_hbeh", Bool(b.SP), Bool(b.EP)) }),
+		ListOf(in.Hooks, func(b c37Beh) string { return App("C37.Build_hbeh", Bool(b.SP), Bool(b.EP), c37Shape[b.Ret]) }),
 		ListOf(in.Calls, coqCall),
 		ListOf(in.Sched, func(o c37Op) string {
 			if o.Fin {
@@ -852,6 +951,9 @@ func c37GenHooks(r *rand.Rand, n int) []c37Beh {
 		default:
 			b.EP = true
 		}
+		if r.Intn(2) == 0 {
+			b.Ret = c37Shapes[r.Intn(len(c37Shapes))]
+		}
 		hs = append(hs, b)
 	}
 	return hs
@@ -868,7 +970,33 @@ func c37Gen(r *rand.Rand, n int, tier string) []c37In {
 		}
 		return c
 	}
-	behs := [][]c37Beh{nil, {{SP: true}, {EP: true}, {SP: true, EP: true}, {}, {EP: true}, {SP: true}, {EP: true}, {}, {SP: true}, {EP: true}}}
+	behs := [][]c37Beh{nil, {{SP: true}, {EP: true}, {SP: true, EP: true}, {}, {EP: true}, {SP: true}, {EP: true}, {}, {SP: true}, {EP: true}},
+		{{Ret: "nilctx"}, {Ret: "derived", EP: true}, {Ret: "niltok"}, {SP: true, Ret: "nilctx"}, {Ret: "nilnil", EP: true}, {Ret: "derived"}, {Ret: "nilctx", EP: true},
+			{Ret: "niltok", EP: true}, {Ret: "nilnil"}, {}, {Ret: "derived"}, {Ret: "nilctx"}, {Ret: "niltok"}, {Ret: "derived", EP: true}, {Ret: "nilnil"}, {Ret: "nilctx"}}}
+	// boundary, FIRST: every shape of what OnDispatchStart returns — (nil ctx, token), (ctx, nil token),
+	// (nil, nil), (derived ctx, token) — on every path: pipe unary (suspended and run-through), pipe
+	// producer / exchange, HTTP unary, HTTP producer init + continuation, HTTP exchange init + continuations
+	{
+		calls := []c37Call{
+			ok(c37Call{Kind: "unary"}), ok(c37Call{Kind: "unary", BadParams: true}),
+			ok(c37Call{Kind: "prod", Turns: []string{"emit", "emit"}, Inputs: []string{"tick", "tick", "tick"}}),
+			ok(c37Call{Kind: "exch", Turns: []string{"emit", "err"}, Inputs: []string{"tick", "tick"}}),
+			ok(c37Call{HTTP: true, Kind: "unary"}), ok(c37Call{HTTP: true, Kind: "unary", BadParams: true}),
+			ok(c37Call{HTTP: true, Kind: "prod", Turns: []string{"emit", "emit", "emit"}, Inputs: []string{"tick", "tick"}}),
+			ok(c37Call{HTTP: true, Kind: "exch", Turns: []string{"emit", "err"}, Inputs: []string{"tick", "sticky", "tick", "tick"}}),
+		}
+		inter := []c37Op{{K: 0}, {K: 4}, {K: 2}, {Fin: true, K: 4}, {K: 7}, {K: 1}, {Fin: true, K: 0}, {K: 3}, {Fin: true, K: 7}, {K: 6}, {Fin: true, K: 2}, {K: 5}, {Fin: true, K: 6}, {Fin: true, K: 3}}
+		for _, sh := range c37Shapes[1:] {
+			var hs, hsEP []c37Beh
+			for i := 0; i < 24; i++ {
+				hs = append(hs, c37Beh{Ret: sh})
+				hsEP = append(hsEP, c37Beh{Ret: sh, EP: i%2 == 0, SP: i%5 == 3})
+			}
+			out = append(out, c37In{Hooks: hs, Calls: calls, Sched: c37SeqSched(len(calls))},
+				c37In{Hooks: hsEP, Calls: calls, Sched: inter})
+		}
+		out = append(out, c37In{Hooks: behs[2], Calls: calls, Sched: inter})
+	}
 	// boundary: every call kind x transport x init outcome, sequential, calm hook and a panicking one
 	for _, hs := range behs {
 		for _, http := range []bool{false, true} {
@@ -966,6 +1094,6 @@ func c37Gen(r *rand.Rand, n int, tier string) []c37In {
 }
 
 func init() {
-	Register("C37", "boundary histories first (every call kind x transport x init outcome incl. bad parameters; every turn action at the first and a later turn with sticky / bad-token / cancel continuations; every refusal before dispatch incl. the protocol-version gate on both transports; a fixed interleaved schedule under 16 hook-behaviour masks; the recorded finding inputs), each under a calm and a panicking hook script, then random histories of 1-5 calls (unary / producer / exchange / unknown method, pipe / HTTP, protocol-version ok / absent / mismatching, authenticator / content-type refusal, bad parameters, bad sticky session, init ok / big log / error / panic / nil, un-serialisable state, 0-6 scripted turns, 0-5 client inputs incl. cancel / forged token / bad sticky continuation) under random interleaved Begin/Finish schedules forced with handler gates and random hook scripts (start and/or end panicking); one schedule in five carries ill-formed ops; every history is replayed with a never-panicking hook for the non-interference comparison; non-trivial = at least one OnDispatchEnd observed; distinct = distinct input JSON",
+	Register("C37", "boundary histories first (every shape of what OnDispatchStart returns on every path — pipe unary suspended / run-through, pipe producer / exchange, HTTP unary, producer init + continuation, exchange init + continuations — sequential and interleaved; then every call kind x transport x init outcome incl. bad parameters; every turn action at the first and a later turn with sticky / bad-token / cancel continuations; every refusal before dispatch incl. the protocol-version gate on both transports; a fixed interleaved schedule under 16 hook-behaviour masks; the recorded finding inputs), each under a calm and a panicking hook script, then random histories of 1-5 calls (unary / producer / exchange / unknown method, pipe / HTTP, protocol-version ok / absent / mismatching, authenticator / content-type refusal, bad parameters, bad sticky session, init ok / big log / error / panic / nil, un-serialisable state, 0-6 scripted turns, 0-5 client inputs incl. cancel / forged token / bad sticky continuation) under random interleaved Begin/Finish schedules forced with handler gates and random hook scripts (start and/or end panicking; a returning start hands back (ctx, token), (nil ctx, token), (ctx, nil token), (nil, nil) or (derived ctx carrying a value, token)); one schedule in five carries ill-formed ops; every history is replayed with a never-panicking hook for the non-interference comparison; non-trivial = at least one OnDispatchEnd observed; distinct = distinct input JSON",
 		c37Gen, c37Run)
 }
